@@ -12,6 +12,7 @@ ENGINE = "E1-sweep"
 TICK_EVERY = 5      # every 5th case of every unit is repeated with numpy integer ticks (int64 / int32)
 RULE = ("all lists of 1-3 well-formed single-channel sequences (note sets over an interval/pitch/velocity alphabet with "
         "leading rests, simultaneous events and abutting repeats; signature events from all 15 keys and 5 time signatures "
+        "(plus every signature over 16 numerators x denominators 1..128, first / in the middle / on another sequence) "
         "on lattice ticks, distributed over the sequences without contradiction; program changes) saved with "
         "sequences_save to a real file and re-loaded with sequences_load; non-trivial = >=2 events on one tick or a "
         "signature after tick 0")
@@ -20,10 +21,13 @@ ASSUMPTIONS = ["mido's byte-level reading/writing is trusted", "channels are not
                "total duration / trailing rests are not part of the statement"]
 REQUIRED_FLAGS = ["after_history", "leading_rest", "simultaneous_events", "abutting_repeat", "signature_after_tick_0", "all_fifteen_keys",
                   "program_change", "control_change", "three_sequences", "default_signature_inserted", "signature_on_non_first_sequence",
-                  "settings_file_activated_after_import"]
+                  "settings_file_activated_after_import", "signature_bar_not_whole_ticks"]
 
 KEYS = ["C", "G", "D", "A", "E", "B", "F#", "C#", "F", "Bb", "Eb", "Ab", "Db", "Gb", "Cb"]
 TS = [(4, 4), (3, 4), (6, 8), (2, 2), (5, 8)]
+# every time signature over these numerators x denominators (bars that are no whole number of ticks included)
+DENOMS = [1, 2, 4, 8, 16, 32, 64, 128]
+NUMERS = [1, 2, 3, 4, 5, 6, 7, 9, 10, 12, 14, 16, 18, 20, 24, 32]
 IV = [(0, 5), (0, 10), (3, 7), (5, 5), (10, 1), (10, 20), (29, 1)]
 
 
@@ -67,6 +71,8 @@ def units(ctx):
     yield from hist.hist_units()
     yield ("long", 0)
     yield ("reload", 0)
+    for di in range(len(DENOMS)):
+        yield ("allsigs", di)
     for k in range(len(lib.LADDER)):
         yield ("scale", k)
     if ctx["tier"] != "quick":
@@ -88,6 +94,14 @@ def gen_cases(unit, ctx):
             yield {"seed": unit[1], "build": unit[2], "hist": h}
         return
     kind, i = unit
+    if kind == "allsigs":
+        p, d = ctx["p"], DENOMS[i]
+        for n in NUMERS:
+            for ns in ([], [(0, 10, p, 0, 64), (29, 1, p + 1, 0, 1)]):
+                yield {"seqs": [S(ns, [("ts", 0, n, d)])]}
+                yield {"seqs": [S(ns, [("ts", 0, 3, 8), ("ts", 10, n, d), ("ts", 30, 5, 4)])]}
+                yield {"seqs": [S(ns, [("ts", 30, 5, 4)]), S([(5, 5, p + 2, 0, 9)], [("ts", 3, n, d), ("ks", 3, "F#")])]}
+        return
     if kind == "reload":
         p = ctx["p"] if ctx["p"] <= 100 else 100
         for ppqn in (48, 12, 480):
@@ -274,6 +288,8 @@ def _check_case(case, ctx):
     for e in all_sig:
         if e[0] == "ks":
             R.flags.append("key:" + e[2])
+        elif (96 * e[2]) % e[3]:
+            R.flags.append("signature_bar_not_whole_ticks")
     try:
         Sequence.sequences_save(objs, path)
         loaded = Sequence.sequences_load(path)
